@@ -34,7 +34,7 @@ type fakeChain struct {
 	stateErr bool
 }
 
-func (bc *fakeChain) Processor() core.Processor   { return bc.proc }
+func (bc *fakeChain) Processor() core.Processor  { return bc.proc }
 func (bc *fakeChain) CurrentBlock() *types.Block { return bc.head }
 func (bc *fakeChain) GetBlock(hash common.Hash, number uint64) *types.Block {
 	b := bc.blocks[hash]
